@@ -1,5 +1,7 @@
 import Grexv.Model.Api
 import Grexv.Gen.SettersPy
+import Grexv.Lemmas.PyOut
+import Grexv.Lemmas.EndToEndR
 
 /-!
 # C14 — the Python binding returns the library's pattern in Python escape syntax
@@ -7,6 +9,13 @@ import Grexv.Gen.SettersPy
 Setters: `Gen.pySetters` (src/python.rs) against `Gen.rsSetters` (src/builder.rs), regenerated on
 every run.  Rewrite: `pyRewrite` is the hand-written model of `replace_unicode_escape_sequences`
 (tied to the code by the Y stream through the real extension in CPython).
+
+Whole pattern (`python_output_is_tokenwise_rewrite`, `python_build`): the text `build()` returns is a sequence of pattern tokens — a
+character other than the backslash, a backslash with the character it escapes, `\u{h…}` — and what Python returns under `-e` is that
+sequence with each `\u{h…}` token in Python's form and every other token unchanged (`PyEmit`; the reading into tokens is unique:
+`PyEmit.unique`).  For every input and every setting the Python class has: class options, `-i`, `-r` with any thresholds, capturing
+groups, verbose mode, anchors, surrogate pairs.  Found while proving it: an escaped backslash in front of `u{2}` (test case `\uu` with
+`-r -e`) was read as the escape `\u{2}` (fixed in python.rs; see known_findings.json).
 -/
 set_option linter.unusedSimpArgs false
 set_option linter.unusedVariables false
@@ -72,15 +81,93 @@ theorem pyRewrite_escape (fuel : Nat) (ds rest : Str)
 
 /-- text that does not start an escape is copied -/
 theorem pyRewrite_other (fuel c : Nat) (rest : Str) (h : c ≠ 92) :
-    pyRewrite (fuel + 1) (c :: rest) = c :: pyRewrite fuel rest := by
-  rw [pyRewrite]
-  intro r hc _
-  exact absurd hc h
+    pyRewrite (fuel + 1) (c :: rest) = c :: pyRewrite fuel rest := pyRewrite_plain fuel c rest h
+
+/-- an escaped backslash is copied as a whole: what follows it is not read as an escape -/
+theorem pyRewrite_escaped_backslash (fuel : Nat) (rest : Str) :
+    pyRewrite (fuel + 1) (92 :: 92 :: rest) = 92 :: 92 :: pyRewrite fuel rest := pyRewrite_bs2 fuel rest
+
+/-! ## the whole pattern -/
+
+/-- **C14 (each escape the printer writes is one token of the rewrite)** for a scalar value above U+007F: `\u{h…}` ↦ `\uXXXX` /
+`\UXXXXXXXX`; with surrogate pairs, two such tokens -/
+theorem printed_escape_is_token (c : Nat) (h : 128 ≤ c) (hs : c ≤ 0x10FFFF) :
+    PyEmit (Expr.escapeChar c false) (pyEscape c) := by
+  have : Expr.escapeChar c false = [92, 117, 123] ++ toHex c ++ 125 :: [] := by
+    unfold Expr.escapeChar
+    rw [if_neg (by omega)]
+    simp
+  rw [this]
+  have := PyEmit.uni c hs PyEmit.nil
+  simpa using this
+
+/-- **C14 (whole pattern, every expression)** for every expression whose literals are made of atoms (a lone backslash, or code points
+other than the backslash and class tokens — what the pipeline produces: `final_ast_atoms`), printed with any settings without colours:
+the rewrite returns the token-wise image of the text -/
+theorem python_rewrite_is_tokenwise (cfg : Config) (hcol : cfg.color = false) (e : Expr) (h : e.AtOK) :
+    PyEmit (fmtRegExp cfg e) (pyRewrite ((fmtRegExp cfg e).length + 1) (fmtRegExp cfg e)) := by
+  obtain ⟨p, hp⟩ := pyTok_fmtRegExp cfg hcol e h
+  rw [pyRewrite_emit hp _ (by omega)]
+  exact hp
+
+/-- what `RegExp::from` keeps has literals made of atoms: without `-r`, and with `-r` for positive thresholds and stored test cases of
+at most 1000 graphemes -/
+theorem final_ast_atoms (cfg : Config) (env : Env) (ws : List Str) (st : Stages) (h : regExpFrom cfg env ws = .ok st)
+    (hseg : ∀ w ∈ storedCases cfg env ws, SegOK env w) (hws : ws ≠ [])
+    (hrep : cfg.rep = true → 1 ≤ cfg.minRep ∧ ∀ w ∈ storedCases cfg env ws, (subPieces (env.segOf w)).length ≤ 1000) :
+    st.finalAst.AtOK := by
+  cases hr : cfg.rep with
+  | false => exact Expr.WF.atOK _ (final_expr_wf cfg hr env ws st h hseg hws)
+  | true => exact Expr.WFS.atOK _ (rep_final_wfs_na cfg hr (hrep hr).1 env ws st h hseg (hrep hr).2 hws)
+
+/-- **C14 (what the Python `build()` returns), all inputs, all settings of the Python class**: without `-e` the library's text; with
+`-e` the library's text with each `\u{h…}` token written in Python's form and nothing else changed -/
+theorem python_build (env : Env) (b b' : Builder) (out : Str) (hcol : b.config.color = false)
+    (hpy : pyBuild env b = .ok (b', out))
+    (hseg : ∀ w ∈ storedCases b.config env b.testCases, SegOK env w) (hws : b.testCases ≠ [])
+    (hrep : b.config.rep = true → 1 ≤ b.config.minRep ∧
+      ∀ w ∈ storedCases b.config env b.testCases, (subPieces (env.segOf w)).length ≤ 1000) :
+    ∃ s, b.build env = .ok (b', s) ∧ (if b.config.esc then PyEmit s out else out = s) := by
+  unfold pyBuild at hpy
+  cases hb : b.build env with
+  | error e => rw [hb] at hpy; cases hpy
+  | ok r =>
+    obtain ⟨b1, s⟩ := r
+    rw [hb] at hpy
+    simp only [Except.ok.injEq, Prod.mk.injEq] at hpy
+    obtain ⟨rfl, hout⟩ := hpy
+    refine ⟨s, rfl, ?_⟩
+    unfold Builder.build at hb
+    cases hst : regExpFrom b.config env b.testCases with
+    | error e => rw [hst] at hb; cases hb
+    | ok st =>
+      rw [hst] at hb
+      simp only [Except.ok.injEq, Prod.mk.injEq] at hb
+      obtain ⟨_, rfl⟩ := hb
+      cases he : b.config.esc with
+      | false => rw [he] at hout; simp only [Bool.false_eq_true, ite_false] at hout ⊢; exact hout.symm
+      | true =>
+        rw [he] at hout
+        simp only [ite_true] at hout ⊢
+        rw [← hout]
+        exact python_rewrite_is_tokenwise b.config hcol st.finalAst (final_ast_atoms b.config env b.testCases st hst hseg hws hrep)
+
+/-- the reading into tokens is unique, so the Python text is a function of the library's text -/
+theorem tokenwise_image_unique {s p q : Str} (h1 : PyEmit s p) (h2 : PyEmit s q) : p = q := h1.unique h2
 
 /-! non-vacuity: `\u{e9}` → `é`, `\u{10ffff}` → `\U0010ffff`, an escaped literal is left alone -/
 example : pyRewrite 20 (strOf "^\\u{e9}$") = strOf "^\\u00e9$" := by decide
 example : pyRewrite 20 (strOf "\\u{10ffff}") = strOf "\\U0010ffff" := by decide
 example : pyRewrite 20 (strOf "\\\\u\\{e9\\}") = strOf "\\\\u\\{e9\\}" := by decide
 example : applySetter pySetters .minRepetitions (.int 3) {} = some (.ok { minRep := 3 }) := rfl
+/-- the witness of the repaired defect: the pattern of the test case `\uu` with `-r -e` is left alone (an escaped backslash, `u{2}`) -/
+example : pyRewrite 20 (strOf "^\\\\u{2}$") = strOf "^\\\\u{2}$" := by decide
+example : pyRewrite 40 (strOf "^\\\\\\u{e9}\\u{1f600}$") = strOf "^\\\\\\u00e9\\U0001f600$" := by decide
+/-- the hypotheses of `python_build` are satisfiable: `\uu` and `é` with `-r -e`, segmentation into single code points -/
+example :
+    let env : Env := { lowerOf := id, segOf := fun w => w.map fun c => [c] }
+    let b : Builder := ⟨[[92, 117, 117], [233]], { rep := true, esc := true }⟩
+    (match pyBuild env b with | .ok _ => true | .error _ => false) = true ∧ b.config.color = false ∧ b.testCases ≠ [] := by
+  refine ⟨by decide +kernel, rfl, by simp⟩
 
 end Grexv.Props.C14
